@@ -159,6 +159,9 @@ def run(ctx):
   # "applied along every preconditioned axis" of every block: the blocks are put back where they were taken from
   from . import C06
   C06.block_partitioner(ctx)
+  # "in the sharded variant the same holds": the per-parameter view of the sharded state is complete in both directions
+  from . import C07
+  C07.sharded_record_conversion(ctx)
 
 
 def initial_values(ctx):
